@@ -12,6 +12,8 @@
 #![allow(unused_imports, non_camel_case_types, dead_code, unused_variables, unused_parens, unused_mut, unused_assignments, non_snake_case, unused_labels)]
 use vstd::prelude::*;
 use std::sync::Arc;
+use std::collections::BTreeMap;
+use vstd::std_specs::btree::*;
 verus! {
 
 global size_of usize == 8;
@@ -201,6 +203,85 @@ impl BlockReader {
 //@end
         ResultS3ReadBlock::Found(BlockP::new(block))
     }
+}
+
+// =====================================================================================================
+// XZ-CUT — an .xz file is decompressed whole when the reader is created (BlockReader::new) and the buffer is cut into blocks there:
+// block bo holds exactly the bytes [bo*blocksz, min((bo+1)*blocksz, len)) of the buffer, for every bo that starts inside it, and the
+// size recorded for the file is the buffer's length -- at every block size (C12)
+pub type Blocks = BTreeMap<BlockOffset, BlockP>;
+#[verifier::external_body]
+pub struct BlocksTracked { _p: u8 }
+impl BlocksTracked {
+    #[verifier::external_body]
+    pub fn insert(&mut self, k: BlockOffset) -> (r: bool) { unimplemented!() }
+}
+pub open spec fn xz_piece(buf: Seq<u8>, bs: int, bo: int) -> Seq<u8> { buf.subrange(bo * bs, if (bo + 1) * bs <= buf.len() { (bo + 1) * bs } else { buf.len() as int }) }
+pub proof fn lemma_xz_div(len: int, bs: int, bo: int)
+    requires bs >= 1, len >= 0, bo >= 0
+    ensures bo <= len / bs ==> bo * bs <= len, bo > len / bs ==> bo * bs > len, (bo + 1) * bs == bo * bs + bs, bo * bs >= 0
+{
+    vstd::arithmetic::div_mod::lemma_fundamental_div_mod(len, bs);
+    vstd::arithmetic::div_mod::lemma_mod_bound(len, bs);
+    let q = len / bs;
+    assert(bs * q == q * bs) by (nonlinear_arith);
+    if bo <= q { assert(bo * bs <= q * bs) by (nonlinear_arith) requires bo <= q, bs >= 1, bo >= 0; }
+    if bo > q { assert(bo * bs >= (q + 1) * bs) by (nonlinear_arith) requires bo >= q + 1, bs >= 1; assert((q + 1) * bs == q * bs + bs) by (nonlinear_arith); }
+    assert((bo + 1) * bs == bo * bs + bs) by (nonlinear_arith);
+    assert(bo * bs >= 0) by (nonlinear_arith) requires bo >= 0, bs >= 1;
+}
+pub fn std_min(a: usize, b: usize) -> (r: usize) ensures r == (if a <= b { a } else { b }) { if a <= b { a } else { b } }   // stand-in for std::cmp::min
+#[verifier::exec_allows_no_decreases_clause]
+pub fn xz_cut_blocks(buffer: &Vec<u8>, blocksz: BlockSz, blocks: &mut Blocks, blocks_read: &mut BlocksTracked, count_bytes_read_in: Count, read_blocks_put_in: Count) -> (r: (Count, Count))
+    requires
+        blocksz >= 1, buffer@.len() >= 1, buffer@.len() + 2 * blocksz < 0x7fff_ffff_ffff_ffff, count_bytes_read_in as int + buffer@.len() < u64::MAX,
+        read_blocks_put_in as int + buffer@.len() + 2 < u64::MAX, old(blocks)@ == Map::<BlockOffset, BlockP>::empty(),
+    ensures
+        // every block that starts inside the buffer is stored and is that piece of the buffer
+        forall|bo: BlockOffset| (bo as int) * (blocksz as int) < buffer@.len() ==> #[trigger] final(blocks)@.contains_key(bo) && final(blocks)@[bo]@ == xz_piece(buffer@, blocksz as int, bo as int),
+        // the size recorded for the file is the buffer's length
+        r.0 as int == count_bytes_read_in as int + buffer@.len(),
+{
+    proof { broadcast use group_btree_axioms; }
+    let mut count_bytes_read: Count = count_bytes_read_in;
+    let mut read_blocks_put: Count = read_blocks_put_in;
+    let ghost bs = blocksz as int; let ghost len = buffer@.len() as int;
+//@cut slice path=src/readers/blockreader.rs impl=BlockReader fn=new anchor="let blocksz_u: usize = blocksz as usize;" take=rest_of_block label=XZ-CUT
+//@replace "std::cmp::min(" "std_min("
+//@replace "read_blocks_put += 1;" "read_blocks_put = read_blocks_put + 1;"
+//@after "let mut block: Block = Block::with_capacity(blocksz_u);"
+                        proof {
+                            lemma_xz_div(len, bs, blockoffset as int);
+                            assert((buffer@.len() as int) / (blocksz_u as int) == len / bs);
+                            assert((blockoffset as int) * bs <= len);
+                        }
+                        let ghost bo0 = blockoffset;
+//@after "blockoffset += 1;"
+                        proof {
+                            lemma_xz_div(len, bs, bo0 as int);
+                            lemma_xz_div(len, bs, blockoffset as int);
+                            assert(block_view__ =~= xz_piece(buffer@, bs, bo0 as int));
+                        }
+//@after "let blockp: BlockP = BlockP::new(block);"
+                        let ghost block_view__ = blockp@;
+//@loop 1
+                        invariant
+                            bs == blocksz as int, len == buffer@.len(), bs >= 1, len >= 1, len + 2 * bs < 0x7fff_ffff_ffff_ffff, blocksz_u as int == bs,
+                            (blockoffset as int) * bs <= len + bs, (blockoffset as int) <= len + 1,
+                            (blockoffset as int) > len / bs ==> (blockoffset as int) * bs >= len,
+                            count_bytes_read as int == count_bytes_read_in as int + (if (blockoffset as int) * bs <= len { (blockoffset as int) * bs } else { len }),
+                            count_bytes_read_in as int + len < u64::MAX, read_blocks_put as int <= read_blocks_put_in as int + blockoffset as int, read_blocks_put_in as int + len + 2 < u64::MAX,
+                            forall|bo: BlockOffset| bo < blockoffset && (bo as int) * bs < len ==> #[trigger] blocks@.contains_key(bo) && blocks@[bo]@ == xz_piece(buffer@, bs, bo as int),
+                        ensures
+                            (blockoffset as int) * bs >= len,
+//@end
+    proof { lemma_xz_div(len, bs, blockoffset as int); }
+    proof {
+        assert forall|bo: BlockOffset| #[trigger] blocks@.contains_key(bo) || (bo as int) * bs < len implies (bo as int) * bs < len ==> bo < blockoffset by {
+            if bo >= blockoffset { assert((bo as int) * bs >= (blockoffset as int) * bs) by (nonlinear_arith) requires bo as int >= blockoffset as int, bs >= 1; }
+        }
+    }
+    (count_bytes_read, read_blocks_put)
 }
 
 /// vacuity guard: must NOT verify
